@@ -19,11 +19,14 @@ astpatch.is_to_eq(HedString, "split_into_groups")   # `is '('` -> `== '('` (see 
 
 _PFX = ["", "p:"]
 _SCHEMA_OF = {"": MINI, "p:": MINI_P}
+# the entry objects created by the real loader, by schema prefix and by the node's name as written in the
+# MediaWiki text (concrete, built once at import)
+_ENTRIES = {p: {e.name: e for e in sch.tags.all_entries} for p, sch in _SCHEMA_OF.items()}
+assert all(sorted(d) == sorted(n["long"] for n in MR.nodes()) for d in _ENTRIES.values())
 
 
 def _entry(prefix, node_long):
-    """the entry object registered by the loader under the node's full long name (concrete lookup)"""
-    return _SCHEMA_OF[prefix].tags.all_names[node_long]
+    return _ENTRIES[prefix][node_long]
 
 
 # ---- partition: exact length (VP_LEN) x class of the first character (VP_G0)
@@ -101,7 +104,7 @@ def resolves_like_reference(s: str) -> bool:
     pre: len(s) <= R.N(3)
     pre: _cell(s)
     pre: R.ascii_printable(s)
-    pre: not R.known("C03-hash-term", _kf_hash_term(s, [""]))
+    pre: not _kf_hash_term(s, [""])
     post: _
     """
     t = HedTag(s, MINI)
@@ -124,7 +127,7 @@ def forms_inverse(s: str) -> bool:
     pre: len(s) <= R.N(3)
     pre: _cell(s)
     pre: R.ascii_printable(s)
-    pre: not R.known("C03-hash-term", _kf_hash_term(s, [""]))
+    pre: not _kf_hash_term(s, [""])
     post: _
     """
     t = HedTag(s, MINI)
@@ -176,7 +179,7 @@ def namespace_variants(k: int, s: str) -> bool:
     pre: len(s) <= R.N(2)
     pre: _cell(s)
     pre: R.ascii_printable(s)
-    pre: not R.known("C03-hash-term", _kf_hash_term(_PFX[k] + s, _PFX))
+    pre: not _kf_hash_term(_PFX[k] + s, _PFX)
     post: _
     """
     text = _PFX[k] + s
@@ -213,7 +216,7 @@ def string_forms(s: str) -> bool:
     pre: _cell(s)
     pre: R.ascii_printable(s)
     pre: _plain_tag_text(s)
-    pre: not R.known("C03-hash-term", _kf_hash_term(s, _PFX))
+    pre: not _kf_hash_term(s, _PFX)
     post: _
     """
     hs = HedString(s + ",(p:" + s + ")", GROUP)
